@@ -2349,7 +2349,7 @@ func areaTotal(c *Ctx) {
 	adv("kind=gdef-distinct sets=2")
 	adv("kind=gdef-distinct sets=20 acc=0")
 	adv("kind=cff-private-size size=268435456")
-	adv("kind=gsub-context-alias rules=6000 glyphs=6000")
+	adv("kind=gsub-context-alias rules=12000 glyphs=12000 acc=0") // decoder alone
 	if c.Tier == "thorough" {
 		adv("kind=kern-alias subs=4000 pairs=12000")
 		adv("kind=classdef2-zigzag pairs=400")
